@@ -14,6 +14,8 @@ mod mon_c01;
 mod mon_c02;
 mod mon_c04;
 mod mon_c05;
+mod mon_c08;
+mod mon_c09;
 mod mon_c10;
 mod mon_c11;
 mod mon_c12;
@@ -91,6 +93,40 @@ fn main() {
             }
             return;
         }
+        "accepts" => {
+            // llgv accepts --kind json --text SCHEMA --lits 'a,b,c' : which literals are complete strings
+            let v = vocab::v1(false);
+            let f = engine::factory_noslice(&v).unwrap();
+            let text = ctx.arg("--text").unwrap_or_default();
+            let g = match ctx.arg("--kind").as_deref() {
+                Some("regex") => engine::GCase::regex("probe", &text),
+                Some("lark") => engine::GCase::lark("probe", &text),
+                _ => engine::GCase::json("probe", &text),
+            };
+            match engine::matcher(&f, &g) {
+                Err(e) => println!("compile error: {}", e.to_string().lines().next().unwrap_or("")),
+                Ok(m0) => {
+                    if m0.is_error() {
+                        println!("error: {:?}", m0.get_error().map(|e| e.lines().next().unwrap_or("").to_string()));
+                    }
+                    for lit in ctx.arg("--lits").unwrap_or_default().split(',') {
+                        let mut m = m0.clone();
+                        let mut ok = true;
+                        let mut pos = 0;
+                        for &b in lit.as_bytes() {
+                            if m.is_stopped() || m.consume_token(b as u32).is_err() {
+                                ok = false;
+                                break;
+                            }
+                            pos += 1;
+                        }
+                        let acc = ok && (if m.is_stopped() { m.stop_reason().is_ok() } else { m.is_accepting().unwrap_or(false) });
+                        println!("{lit:>14}: prefix_ok={ok} (bytes {pos}) complete={acc}");
+                    }
+                }
+            }
+            return;
+        }
         "lint" => {
             // print compile errors of pool grammars (development aid)
             let v = vocab::v1(false);
@@ -110,6 +146,8 @@ fn main() {
         "C02" => mon_c02::run(&mut ctx),
         "C04" => mon_c04::run(&mut ctx),
         "C05" => mon_c05::run(&mut ctx),
+        "C08" => mon_c08::run(&mut ctx),
+        "C09" => mon_c09::run(&mut ctx),
         "C10" => mon_c10::run(&mut ctx),
         "C11" => mon_c11::run(&mut ctx),
         "C12" => mon_c12::run(&mut ctx),
